@@ -54,6 +54,7 @@ type Change struct {
 	Lsn   uint64 `json:"lsn"`
 	Table string `json:"table"`
 	Pause bool   `json:"pause,omitempty"` // the server idles ~5 batcher ticks after this message
+	Big   bool   `json:"big,omitempty"`   // the row renders to more than 1 MiB of JSON: Kinesis drops it (counted)
 }
 
 type Txn struct {
@@ -190,7 +191,11 @@ func (w *world) newConn(start uint64, veryFirst bool) *pgConn {
 		c.pauses = append(c.pauses, false)
 		c.kinds = append(c.kinds, "begin")
 		for _, ch := range t.Changes {
-			c.queue = append(c.queue, xlog(ch.Lsn, fmt.Sprintf("table %s: INSERT: id[integer]:%d", ch.Table, ch.Lsn)))
+			payload := fmt.Sprintf("table %s: INSERT: id[integer]:%d", ch.Table, ch.Lsn)
+			if ch.Big {
+				payload += " pad[text]:'" + strings.Repeat("x", 1100000) + "'"
+			}
+			c.queue = append(c.queue, xlog(ch.Lsn, payload))
 			c.pauses = append(c.pauses, ch.Pause)
 			c.kinds = append(c.kinds, "change")
 		}
@@ -764,7 +769,7 @@ func monitor(c Case, r result) []core.Violation {
 					continue // not covered by this acknowledgement, or inside an announced recovery gap
 				}
 				for _, ch := range t.Changes {
-					if passes(c, ch.Table) && !accepted[ch.Lsn] {
+					if passes(c, ch.Table) && !ch.Big && !accepted[ch.Lsn] {
 						sig := "ack-before-sink-accept"
 						if stale {
 							sig = "stale-written-after-supersession"
@@ -850,6 +855,13 @@ func genCase(rng *rand.Rand) Case {
 		t.Commit = lsn
 		c.Txns = append(c.Txns, t)
 		nmsg += 2 + len(t.Changes)
+	}
+	if rng.Intn(8) == 0 && len(c.Txns) > 0 {
+		// one over-size row (dropped by the Kinesis batch, still counted) next to ordinary rows
+		t := &c.Txns[rng.Intn(len(c.Txns))]
+		if len(t.Changes) > 0 {
+			t.Changes[rng.Intn(len(t.Changes))].Big = true
+		}
 	}
 	switch rng.Intn(10) {
 	case 0, 1, 2: // reconnects
